@@ -575,7 +575,7 @@ RCP<const Number> RealMPFR::powreal(const RealMPFR &other) const
 {
     if (mpfr_cmp_si(i.get_mpfr_t(), 0) < 0) {
 #ifdef HAVE_SYMENGINE_MPC
-        mpc_class t(get_prec());
+        mpc_class t(std::max(get_prec(), other.get_prec()));
         mpc_set_fr(t.get_mpc_t(), this->i.get_mpfr_t(), MPFR_RNDN);
         mpc_pow_fr(t.get_mpc_t(), t.get_mpc_t(), other.i.get_mpfr_t(),
                    MPFR_RNDN);
